@@ -193,8 +193,8 @@ func TestVerifC34_EpochLength(t *testing.T) {
 		if trig.Epoch() != epoch || trig.IsEpochStart() {
 			rt.Fatalf("fixture: fresh trigger reports epoch %d isEpochStart %v", trig.Epoch(), trig.IsEpochStart())
 		}
-		ntForce := false   // a non-trivial force request was made in the current epoch
-		ntCase := false    // ... and an epoch start followed
+		ntForce := false // a non-trivial force request was made in the current epoch
+		ntCase := false  // ... and an epoch start followed
 		unchanged := func(what string) {
 			if e := trig.Epoch(); e != m.epoch {
 				c.Violation("C34:epoch-changed-outside-update", "Epoch() went %d -> %d in %s\n%s", m.epoch, e, what, trace.String())
